@@ -158,6 +158,17 @@ def _content(path):
         return None
 
 
+def _stale_output(tool, args, rseed):
+    """every other case: the -o file exists already and holds a longer text (an earlier, larger formula)"""
+    outfile = requested_format(tool, args)[2]
+    if rseed % 2 == 0 and outfile and outfile != '-' and not os.path.isdir(outfile) and os.path.isdir(os.path.dirname(os.path.abspath(outfile))):
+        try:
+            with open(outfile, 'w') as fh:
+                fh.write("c stale content of an earlier run\np cnf 900 300\n" + "".join("{} -{} {} 0\n".format(i, i + 1, i + 2) for i in range(1, 301)))
+        except OSError:
+            pass
+
+
 def _pre(tool, args):
     outfile = requested_format(tool, args)[2]
     return _content(outfile) if outfile and outfile != '-' else None
@@ -417,6 +428,7 @@ def run_case(case):
         cwd = os.getcwd()
         os.chdir(d)            # relative file names produced by mutations stay inside the scratch directory
         try:
+            _stale_output(tool, args, case['rseed'])
             pre = _pre(tool, args)
             r = cli.run_main(tool, args, stdin)
             what = "{} {}".format(tool, ' '.join(case['args']))
@@ -608,7 +620,7 @@ TOOLS = ['cnfgen', 'pbgen', 'cnfshuffle', 'kthlist2pebbling']
 
 SUBCHECKS = [
     SubCheck('hostile', run_case, strategy=strat_case, quick=3000, thorough=150000,
-             rule="valid command lines of every sub-command (graph constructions, numeric forms, -T chains, every output option, -o into files and directories) with 0..3 mutations: numbers replaced by -1/0/1/2/3/5/6/x/1.5/empty, tokens deleted/duplicated, unknown options, graph constructions replaced by missing/directory/empty/garbage/wrong-format/binary/unreadable files with every format keyword, 'save' into bad places (a directory, a directory that does not exist, unknown extensions), constructions of the wrong graph type, extra tokens, -h anywhere; cnfshuffle and kthlist2pebbling with option soups and good/garbage stdin; oracle: exactly one of {exit 0 + complete document accepted by the strict reader of the format, help + exit 0, non-zero exit + empty stdout + non-empty stderr with every line starting with the comment marker}; never an escaping exception or traceback; non-trivial: the argv names a sub-command",
+             rule="valid command lines of every sub-command (graph constructions, numeric forms, -T chains, every output option, -o into fresh files, into files that already hold a longer text, and into directories) with 0..3 mutations: numbers replaced by -1/0/1/2/3/5/6/x/1.5/empty, tokens deleted/duplicated, unknown options, graph constructions replaced by missing/directory/empty/garbage/wrong-format/binary/unreadable files with every format keyword, 'save' into bad places (a directory, a directory that does not exist, unknown extensions), constructions of the wrong graph type, extra tokens, -h anywhere; cnfshuffle and kthlist2pebbling with option soups and good/garbage stdin; oracle: exactly one of {exit 0 + complete document accepted by the strict reader of the format, help + exit 0, non-zero exit + empty stdout + non-empty stderr with every line starting with the comment marker}; never an escaping exception or traceback; non-trivial: the argv names a sub-command",
              required_labels=TOOLS + ['success', 'clean-error', 'help', 'bad-file', 'directory-argument']),
     SubCheck('subprocess', run_subprocess_case, strategy=strat_case, enumerate_cases=enum_subprocess, quick=32, thorough=2500,
              rule="the same generator, each command line run as a real process; enumerated: commands that read a formula or a graph from the standard input (every format keyword, and none) fed through a pipe with good and with malformed text (python -c 'from <tool module> import main; main()') and compared with the in-process verdict",
